@@ -401,13 +401,64 @@ def real_measure(console, e, w, obj=None):
 _ref = None
 
 
+def width_table():
+    """rich's CELL_WIDTHS as PARSED FROM THE SOURCE by the translator (harness/tables.py: `ast.literal_eval`, no import of rich) — the
+    same rows the Lean model's `Gen.cellWidths` is generated from; nothing of rich.cells (binary search, cache) is involved"""
+    try:
+        import tables
+
+        return list(tables._module_assign(os.path.join(tables.REPO, "rich", "_cell_widths.py"), "CELL_WIDTHS"))
+    except Exception:  # noqa: BLE001 - the translator was refactored: fall back to the module's data (still not rich.cells)
+        from rich._cell_widths import CELL_WIDTHS
+
+        return list(CELL_WIDTHS)
+
+
+_boundary = None
+
+
+def boundary_chars():
+    """Range-BOUNDARY characters of rich's width table, picked from the table itself (deterministic, no hand-made list): for the
+    double-width and for the zero-width rows — the first five single-code-point ranges, and the FIRST and LAST code point of the first
+    five longer ranges, of the five longest ranges and of the last two ranges.  (A comparison off by one in the table lookup —
+    `>` / `>=`, `<` / `<=` — changes the width of exactly these and of no character inside a long range; the sixth seeded round.)
+    Returns (wide, zero): two lists of one-character strings.  Control characters, surrogates and `str.splitlines` separators are left out."""
+    global _boundary
+    if _boundary is not None:
+        return _boundary
+    rows = [(a, b, (0 if w == -1 else w)) for a, b, w in width_table() if a >= 0x300]
+    res = {}
+    for width in (2, 0):
+        rs = [(a, b) for a, b, w in rows if w == width]
+        single = [r for r in rs if r[0] == r[1]][:5]
+        longer = [r for r in rs if r[0] < r[1]]
+        pick = single + longer[:5] + sorted(longer, key=lambda r: (r[0] - r[1], r[0]))[:5] + longer[-2:]
+        cps = []
+        for a, b in pick:
+            for cp in (a, b):
+                ch = chr(cp)
+                if 0xD800 <= cp <= 0xDFFF or cp in (0x85, 0x2028, 0x2029) or not ch.isprintable() and width == 2:
+                    continue
+                if ch not in cps:
+                    cps.append(ch)
+        res[width] = cps
+    _boundary = (res[2], res[0])
+    return _boundary
+
+
+def boundary_words():
+    """words for the content alphabets: every boundary double-width character alone and in a run, zero-width boundary characters
+    attached to a base letter"""
+    wide, zero = boundary_chars()
+    out = list(wide) + [c * 3 for c in wide[:6]] + ["a" + z for z in zero] + [wide[i % len(wide)] + z for i, z in enumerate(zero[:6])]
+    return out
+
+
 def char_width(ch):
     """first-match scan of CELL_WIDTHS (independent of rich.cells' binary search and cache)"""
     global _ref
     if _ref is None:
-        from rich._cell_widths import CELL_WIDTHS
-
-        _ref = CELL_WIDTHS
+        _ref = width_table()
     cp = ord(ch)
     if 32 <= cp < 127:
         return 1
@@ -541,7 +592,7 @@ def domain(e, opts, console, w=None):
     'in'        inside `Dom`;
     'f23'       inside, except that a ProgressBar is followed by a sibling in a group (known finding progressbar-no-newline);
     'floor:<n>' a root table with arbitrary columns inside `tableBudget` whose min_width binds: `table_general_bound` allows n more cells;
-    'open'      ('open:f23' when a ProgressBar is also followed by a sibling) outside `Dom` only through a condition marked NOT DISCHARGED in Props/C01.lean (a free table / Columns offered less than
+    'open'      ('open:f23' when a ProgressBar is also followed by a sibling) outside `Dom` only through the condition still marked NOT DISCHARGED in Props/C01.lean, Columns(width >= 1) (formerly also: a free table / Columns offered less than
                 one cell per column inside a narrower Constrain / Align, Columns(width >= 1)): no counterexample is known — the check
                 evaluates the bound there too, under its own site name, and any failure would be a new witness;
     'out'       outside `Dom` with a witness (`excluded_*`): text / str with effective overflow="ignore", an `end` other than "\n" (""
@@ -611,12 +662,8 @@ def _domain_at(e, opts, console, w):
             # columns that are not free to wrap: `tableBudget` (C07 width_bound_general), computed on the real table
             floor = table_general(e, console, w)
             return "in" if floor == 0 else ("out" if floor is None else "floor:%d" % floor)
-        if cols and w is not None:
-            # free columns: the width the table is laid out for leaves one cell per column (implied by smin <= w at top level)
-            box = o.get("box", "HEAVY_HEAD")
-            extra = (2 if box is not None and o.get("show_edge", True) else 0) + (len(cols) - 1 if box is not None else 0)
-            if extra + len(cols) > (o["width"] if o.get("width") is not None else w):
-                return "open"
+        # free columns: inside `Dom` at EVERY width since the fourth deepening round (`free_table_below_one_cell_per_column`: below one cell
+        # per column every column ends at exactly one cell) — formerly 'open' when the width the table is laid out for left less
         return "in"
     if k == "COLS":
         d = e[1].get("title")
@@ -626,9 +673,7 @@ def _domain_at(e, opts, console, w):
             return "out"  # witness `excluded_columns_width_zero`
         if e[1].get("width") is not None:
             return "open"
-        if w is not None and len(e[2]) > w:
-            return "open"
-        return "in"
+        return "in"  # fewer cells than items (inside a narrow Constrain / Align): discharged, `columnsConsole_decomp_any`
     raise ValueError(k)
 
 
@@ -767,8 +812,11 @@ WORDS = ["a", "ab", "abc", "hello", "x", "あ", "あい", "😽", "à", "b​c",
 def gen_plain(rng, rich_chars=True):
     n = rng.choice([0, 1, 1, 2, 2, 3, 4, 6, 9])
     parts = []
+    bw = boundary_words()
     for _ in range(n):
         w = rng.choice(WORDS if rich_chars else WORDS[:5])
+        if rich_chars and rng.random() < 0.12:  # a range-boundary character of the width table (first / last code point of a range)
+            w = rng.choice(bw)
         parts.append(w)
         r = rng.random()
         parts.append(" " if r < 0.7 else ("\n" if r < 0.85 else ("  " if r < 0.93 else "")))
